@@ -13,7 +13,7 @@ use crate::exec::{pristine_disk, Corpus};
 use crate::fields;
 use crate::rng::{run_seed, Rng};
 use crate::surgery;
-use crate::trace::{tag_to_string, Fault, Feat, FvRecord, Mode, Op, Positions, Surgery, Trace};
+use crate::trace::{tag_to_string, Fault, Feat, FvRecord, Mode, Op, Positions, Surgery, Trace, WrapOpts};
 use crate::util::guard;
 
 #[derive(Clone, Copy, PartialEq, Eq, Debug)]
@@ -380,6 +380,7 @@ impl Generator {
             mode: Mode::Provider,
             rewrap_woff2: false,
             wrap_woff2: false,
+            wrap_opts: None,
             surgery: Vec::new(),
             faults: Vec::new(),
             ops: Vec::new(),
@@ -409,6 +410,7 @@ impl Generator {
             trace.mode = Mode::Provider;
             trace.rewrap_woff2 = false;
             trace.wrap_woff2 = false;
+            trace.wrap_opts = None;
             trace.faults.retain(|f| f.targets().iter().all(|t| t != "file" && t != "inner"));
         }
         // Serve a bare sfnt through the real WOFF2 provider (null transforms): table faults only.
@@ -426,6 +428,99 @@ impl Generator {
         {
             trace.mode = Mode::Image;
             trace.wrap_woff2 = true;
+            if info.has("glyf") && rng.pct(75) {
+                // The tail-elision construct triggers a recorded finding (known_findings.json,
+                // WOFF2 hmtx reconstruction) on every font, so generated files avoid it; the
+                // two corpus fixtures that use it keep that finding visible.
+                trace.wrap_opts = Some(WrapOpts {
+                    transform_glyf: rng.pct(85),
+                    transform_hmtx: rng.pct(50),
+                    variant: rng.below(64),
+                    avoid: crate::woff2_build::AVOID_HMTX_ELIDE_TAIL
+                        | crate::woff2_build::AVOID_HMTX_ELIDE_EMPTY_TAIL,
+                });
+            }
+            // Faults inside the table data block of the generated file (C01 / C14): they reach the
+            // transformed-glyf / hmtx decoders of every TrueType corpus font, not only the six
+            // WOFF2 fixtures.
+            if trace.wrap_opts.is_some() && !matches!(prop, "C03" | "C09" | "C02") && rng.pct(65) {
+                let mut d = info.disk.clone();
+                trace.faults.clear();
+                let image = crate::exec::build_wrapped(&d, &trace);
+                d.tables.clear();
+                if let Some(layout) = disk::woff2_layout(&image) {
+                    let ilen: usize = layout.entries.iter().map(|e| e.3).sum();
+                    let glyf = layout
+                        .entries
+                        .iter()
+                        .find(|e| (e.0 == 10 || e.1 == 0x676c_7966) && e.4)
+                        .map(|e| e.2);
+                    let hmtx = layout
+                        .entries
+                        .iter()
+                        .find(|e| (e.0 == 3 || e.1 == 0x686d_7478) && e.4)
+                        .map(|e| (e.2, e.3));
+                    if ilen > 0 {
+                        trace.rewrap_woff2 = true;
+                        let n = 1 + rng.usize_below(2);
+                        for _ in 0..n {
+                            let target = "inner".to_string();
+                            let f = match rng.below(8) {
+                                0 => Fault::BitFlip {
+                                    target,
+                                    off: rng.usize_below(ilen),
+                                    mask: 1 << rng.below(8),
+                                },
+                                1 => Fault::Truncate {
+                                    target,
+                                    len: rng.usize_below(ilen),
+                                },
+                                2 => match hmtx {
+                                    // the transformed hmtx: flags byte and advance stream
+                                    Some((off, len)) => Fault::Set {
+                                        target,
+                                        off: off + rng.usize_below(len.min(8).max(1)),
+                                        width: 1,
+                                        val: boundary_value(&mut rng, 1, len, 0),
+                                        field: "woff2.hmtx.byte".into(),
+                                    },
+                                    None => Fault::ZeroRange {
+                                        target,
+                                        off: rng.usize_below(ilen),
+                                        len: 1 + rng.usize_below(32),
+                                    },
+                                },
+                                3 => match glyf {
+                                    // somewhere inside the glyf streams (bit flips in nContour /
+                                    // nPoints / flag / glyph / composite / bbox / instruction data)
+                                    Some(g) => Fault::BitFlip {
+                                        target,
+                                        off: g + 36 + rng.usize_below(ilen.saturating_sub(g + 36).min(4096).max(1)),
+                                        mask: 1 << rng.below(8),
+                                    },
+                                    None => Fault::BitFlip {
+                                        target,
+                                        off: rng.usize_below(ilen),
+                                        mask: 1 << rng.below(8),
+                                    },
+                                },
+                                _ => {
+                                    let fs = fields::locate_woff2_inner(ilen, glyf, &mut rng);
+                                    let f = rng.pick(&fs).clone();
+                                    Fault::Set {
+                                        target,
+                                        off: f.off,
+                                        width: f.width,
+                                        val: boundary_value(&mut rng, f.width, ilen, 0),
+                                        field: f.name,
+                                    }
+                                }
+                            };
+                            trace.faults.push(f);
+                        }
+                    }
+                }
+            }
             if prop == "C09" && rng.pct(60) {
                 trace.ops.insert(0, Op::Reconstruct);
             }
@@ -1422,7 +1517,7 @@ fn gen_lang(rng: &mut Rng, info: &FontInfo) -> Option<String> {
     }
 }
 
-fn gen_feat(rng: &mut Rng) -> Feat {
+fn gen_feat(rng: &mut Rng, info: &FontInfo) -> Feat {
     if rng.pct(75) {
         let mask = match rng.below(10) {
             0..=3 => DEFAULT_MASK,
@@ -1447,7 +1542,20 @@ fn gen_feat(rng: &mut Rng) -> Feat {
                     2 => Some(65535),
                     _ => None,
                 };
-                (rng.pick(FEATURE_TAGS).to_string(), alt)
+                // mostly the font's own features, so that Custom selections reach real lookups
+                let own = info.gsub_features.len() + info.gpos_features.len();
+                let tag = if own > 0 && rng.pct(65) {
+                    let k = rng.usize_below(own);
+                    let t = if k < info.gsub_features.len() {
+                        info.gsub_features[k].0
+                    } else {
+                        info.gpos_features[k - info.gsub_features.len()].0
+                    };
+                    tag_to_string(t)
+                } else {
+                    rng.pick(FEATURE_TAGS).to_string()
+                };
+                (tag, alt)
             })
             .collect();
         Feat {
@@ -1567,7 +1675,7 @@ pub fn gen_op(rng: &mut Rng, info: &FontInfo, kind: &str) -> Op {
                 text,
                 script,
                 lang: gen_lang(rng, info),
-                feat: gen_feat(rng),
+                feat: gen_feat(rng, info),
                 tuple: gen_tuple(rng, info, true),
                 kerning: rng.pct(60),
                 required: rng.pct(15),
@@ -1764,7 +1872,7 @@ fn near_miss(rng: &mut Rng, info: &FontInfo, base: &Op) -> Op {
                             mask: Some(m ^ (1 << rng.below(46))),
                             custom: None,
                         },
-                        None => gen_feat(rng),
+                        None => gen_feat(rng, info),
                     }
                 }
                 4 => op.5 = !op.5,
